@@ -20,6 +20,7 @@ def plan(pid, tier, seed):
         mc = [dict(mc[1], sample=1000)]
     return {
         "harness": "springapi",
+        "needs_coca": True,       # a quarter of the cases also go through `coca analysis` + `coca api -f` (api.csv)
         "mc": mc,
         "gen": [],
         "rand": 300 if quick else 6000,
@@ -39,7 +40,8 @@ def case_from_tlc(obj, h, g):
         # every order and every sub-/superset of the pair, plus a repetition, in ONE process
         runs = [[1, 2], [2, 1], [2], [1], [1, 2]]
         fresh = [False, True, True, False, False]       # other orders / subsets also in fresh processes
-    return {"case": "tlc-" + h, "files": files, "runs": runs, "fresh": fresh, "layout": int(h[:6], 16) % 1000}
+    cli = int(h[-2:], 16) % 2 == 0 and not any(f["impl"] for f in files)
+    return {"case": "tlc-" + h, "files": files, "runs": runs, "fresh": fresh, "layout": int(h[:6], 16) % 1000, "cli": cli}
 
 
 def nontrivial(rec):
